@@ -43,8 +43,9 @@ Definition open_part (c : oconfig) (parent : option anode) (node : anode) (index
   push_str c [c_gt] st.
 
 (* the element's own text: push_tokens(node.value), on its own lines when it has line breaks or
-   starts with a block tag *)
-Definition text_part (c : oconfig) (value : list vtok) (st : fstate) : fstate :=
+   starts with a block tag; the line break that puts the closing tag on its own line is written
+   here only for a childless element (with children the last formatted child writes it) *)
+Definition text_part (c : oconfig) (value : list vtok) (ch : list anode) (st : fstate) : fstate :=
   let f := oc_fmt c in
   let inner := existsb has_newline value || starts_with_block_tag c value in
   let st := if inner
@@ -52,7 +53,10 @@ Definition text_part (c : oconfig) (value : list vtok) (st : fstate) : fstate :=
             else st in
   let st := push_tokens c value st in
   if inner
-  then map_out (fun o => let o' := os_add_level o (-1) in os_push_newline_int f o' (os_level o')) st
+  then match ch with
+       | [] => map_out (fun o => let o' := os_add_level o (-1) in os_push_newline_int f o' (os_level o')) st
+       | _ => map_out (fun o => os_add_level o (-1)) st
+       end
   else st.
 
 (* closing part: `</name>`, comment, line break after the last formatted child, indentation level *)
@@ -75,7 +79,7 @@ Theorem children_after_text c parent nm0 nm v0 value rp at_ ch sc index items st
   let node := ANode (Some (nm0 :: nm)) (Some (v0 :: value)) rp at_ ch sc in
   html_element c parent node index items st =
     close_part c parent node index items
-      (html_children c node (text_part c (v0 :: value) (open_part c parent node index items st))).
+      (html_children c node (text_part c (v0 :: value) ch (open_part c parent node index items st))).
 Proof.
   intros Hnf node. subst node. unfold no_field in Hnf.
   cbn [html_element an_name an_self an_children an_value an_attrs truthy_l negb].
